@@ -254,15 +254,33 @@ def _mk_history_files():
 
 
 HFILES = _mk_history_files() if ('hmode' in P or os.environ.get('XH_C13_HISTORY')) else {}       # only the history conditions need the files
-BATCHES = [['good0', 'good1'], ['bad'], ['good1', 'bad', 'good0'], ['good2'], ['good2', 'good0', 'good1'], ['missing', 'good1'], []]
+BATCHES = [['good0', 'good1'], ['bad'], ['good1', 'bad', 'good0'], ['good2'], ['good2', 'good0', 'good1'], ['missing', 'good1'], [],
+           ['SWAP', 'good0', 'good2']]        # SWAP: before this batch the contents of good0.fasta and good2.fasta are exchanged on disk
 MODES = ['sequential', 'threads (own pool)', 'caller-supplied thread pool']
+
+
+def _swap_files(a, b):
+    pa, pb = str(HFILES[a][0].path), str(HFILES[b][0].path)
+    with open(pa, 'rb') as f:
+        da = f.read()
+    with open(pb, 'rb') as f:
+        db = f.read()
+    with open(pa, 'wb') as f:
+        f.write(db)
+    with open(pb, 'wb') as f:
+        f.write(da)
 
 
 def _history_concrete(mode, batches):
     pool = _RealThreads(max_workers=2) if mode == 2 else None
+    content = {n: n for n in HFILES}          # which genome each file currently holds
     try:
         for step, b in enumerate(batches):
-            names = BATCHES[b]
+            names = list(BATCHES[b])
+            if names and names[0] == 'SWAP':
+                names = names[1:]
+                _swap_files('good0', 'good2')
+                content['good0'], content['good2'] = content['good2'], content['good0']
             files = [HFILES[n][0] for n in names]
             must_fail = any(HFILES[n][1] is None for n in names)
             kw = dict(progress=None, concurrency=None)
@@ -282,10 +300,13 @@ def _history_concrete(mode, batches):
                 return False, f'step {step}: batch {names} returned {len(res)} signatures'
             for i, n in enumerate(names):
                 got = [int(x) for x in res[i]]
-                if got != HFILES[n][1]:
-                    return False, (f'step {step}: signature {i} of batch {names} ({n}) has {len(got)} k-mers, the file alone has {len(HFILES[n][1])} '
-                                   f'({len(set(got) - set(HFILES[n][1]))} extra, {len(set(HFILES[n][1]) - set(got))} missing)')
+                want = HFILES[content[n]][1]
+                if got != want:
+                    return False, (f'step {step}: signature {i} of batch {names} ({n}' + (f', which now holds the genome of {content[n]}' if content[n] != n else '') + f') has {len(got)} k-mers, '
+                                   f'the file alone has {len(want)} ({len(set(got) - set(want))} extra, {len(set(want) - set(got))} missing)')
     finally:
+        if content['good0'] != 'good0':
+            _swap_files('good0', 'good2')
         if pool is not None:
             pool.shutdown()
     return True, None
